@@ -15,6 +15,7 @@ import (
 	"github.com/hashicorp/consul/internal/verifmc/cmdlib"
 	"github.com/hashicorp/consul/internal/verifmc/dump"
 	"github.com/hashicorp/consul/internal/verifmc/e1"
+	"github.com/hashicorp/consul/internal/verifmc/ep"
 	"github.com/hashicorp/consul/internal/verifmc/ev"
 	"github.com/hashicorp/consul/internal/verifmc/world"
 )
@@ -379,8 +380,22 @@ func Run(c *ev.Ctx) {
 	st3 := e1.Run(p3)
 	st3.Report(c, "watch_")
 
+	// the same lists as a client sends them: through the Txn.Apply RPC endpoint (pre-checks, raft apply,
+	// result filtering) on a Server value over the same pre-states
+	var alphaRPC []world.Op
+	for _, op := range alpha {
+		alphaRPC = append(alphaRPC, ep.Via(op, nil))
+	}
+	p4 := &e1.Config{Ctx: c, Seeds: preSeeds, Alphabet: alphaRPC, MaxDepth: 1}
+	if quick {
+		p4.Seeds = seeds
+	}
+	p4.Pre, p4.Post = mkPre(p4, false), mkPost(false)
+	st4 := e1.Run(p4)
+	st4.Report(c, "rpc_")
+
 	// read-only transactions never modify state
-	ro := 0
+	ro, roRPC := 0, 0
 	for _, ops := range preSeeds {
 		w := world.New()
 		w.ApplyAll(ops)
@@ -395,17 +410,35 @@ func Run(c *ev.Ctx) {
 				tops = append(tops, o)
 			}
 		}
+		srv, err := ep.Open(w)
+		if err != nil {
+			c.HarnessError("endpoint server: " + err.Error())
+			return
+		}
 		for i := range tops {
 			for j := range tops {
-				w.Store().TxnRO(structs.TxnOps{tops[i], tops[j]})
+				res, errs := w.Store().TxnRO(structs.TxnOps{tops[i], tops[j]})
 				ro++
+				// and through the Txn.Read RPC endpoint: same answer, still no change
+				var reply structs.TxnReadResponse
+				oi, oj := *tops[i], *tops[j]
+				if err := srv.VS.Txn().Read(&structs.TxnReadRequest{Datacenter: cmdlib.DC, Ops: structs.TxnOps{&oi, &oj}}, &reply); err != nil {
+					c.Violate("C05:txn-read-endpoint-error", "Txn.Read failed: "+err.Error(), map[string]any{"ops": names(ops)})
+					continue
+				}
+				roRPC++
+				if a, b := world.NormResult(structs.TxnResponse{Results: res, Errors: errs}), world.NormResult(structs.TxnResponse{Results: reply.Results, Errors: reply.Errors}); a != b {
+					c.Violate("C05:txn-read-endpoint-differs-from-store", fmt.Sprintf("Txn.Read answers %s, the store's read-only transaction %s", b, a), map[string]any{"ops": names(ops)})
+				}
 			}
 		}
+		srv.Close()
 		if tabs := world.DiffTables(before, w.Dump(full)); len(tabs) > 0 {
 			c.Violate(fmt.Sprintf("C05:read-only-txn-changed-state:tables=%v", tabs), "a read-only transaction modified the store", map[string]any{"ops": names(ops)})
 		}
 	}
 	c.Set("read_only_txns", ro)
+	c.Set("read_only_txns_through_rpc_endpoint", roRPC)
 	c.Set("parts", len(parts))
 	c.Set("op_lists", len(lists))
 	c.Set("rule", "pre-states = all states of a catalog/KV/session BFS; from each, every op list (length<=2 over all verbs, length 3 over a focused subset in thorough) as one Txn command; failing op at every position by construction")
